@@ -18,27 +18,42 @@ from harness.common.vmachine import VMachine, BootError
 ID = "C10"
 LEAN_MODULES = ["MpfVerif.Props.C10"]
 PROPS_FILE = "MpfVerif/Props/C10.lean"
-GEN = []
+
+
+def _gen_rules_ops():
+    from translate import rules_eff
+    return rules_eff.generate()
+
+
+GEN = [_gen_rules_ops]
 MANIFEST = {
-    "text": "Proof on a Lean model of flippers (single/dual wound, with/without EOS switch, software EOS repulse), autofire coils and kickbacks (timeout protection, re-enable delay, ball search) writing and clearing rows of a platform rule table keyed by (switch, coil): for every configuration whose rule keys are pairwise distinct and every sequence of enable/disable/sw_flip/sw_release/ball-search/switch/hit/lifecycle-event/clock ops, the table holds exactly the rules of the enabled devices, each key once, and every auxiliary switch handler belongs to an enabled device; enable and disable are idempotent; after an event listed in the disable events of every device and in no enable events (ball_will_end, service_mode_entered by default; tilt, slam tilt and game end reach ball_will_end through the real game) table and handlers are empty, no coil is energised and every device stays disabled until something enables one; after a disable no re-enable delay is pending and the device stays disabled through any later ops that do not enable it. In every reachable state (any configuration) a coil energised by a software command is owed to the sw_flipped / repulse-enabled flag of an enabled flipper, so no coil is energised on behalf of a disabled flipper and after such a disabling event no coil is energised at all. The model is tied to flipper.py/autofire.py/kickback.py/platform_controller.py/virtual.py by a correspondence run on real devices of a real machine (with and without a running game) after every op; the oracle checks the platform's rules dict and the registered switch handlers against the enabled devices on every op.",
-    "note": "Trusted: Lean kernel + {propext, Classical.choice, Quot.sound}; the hand-written model Model/Rules.lean (validated only by differential runs); the virtual platform's rules dict stands for the hardware (real platforms' own set/clear implementations are not covered); game flow (which lifecycle events a tilt / drain / game end posts) is taken from the real game and fed to the model as events; asyncio timers via the repo's TimeTravelLoop. Assumes devices do not share a (switch, coil) pair and kickback switches are not shared. Three defects fixed (half-installed flipper after a refused rule, autofire enabled without a rule, software EOS repulse leaving the coil on after disable).",
-    "technique": "Lean 4 theorems (invariant + induction over all op sequences) on a hand model + differential correspondence and rule-table oracle on real devices",
-    "translated": False,
+    "text": "Proof on a Lean model of flippers (single/dual wound, with/without EOS switch, software EOS repulse or a platform that repulses in hardware, power_setting_name), autofire coils and kickbacks (timeout protection, re-enable delay, ball search, delayed pulse rule, reverse_switch, switch_overwrite / coil_overwrite) writing and clearing rows of a platform rule table keyed by (switch, coil), every row carrying the settings it is written with (invert, debounce, pulse ms, pulse power, hold power, recycle, delay, hardware repulse settings - selected from the overwrites and the coil / switch defaults inside the model): for every configuration whose rule keys are pairwise distinct and every sequence of enable/disable/sw_flip/sw_release/ball-search/switch/hit/lifecycle-event/clock/power-setting ops, the table holds exactly the rules of the enabled devices, each key once, with exactly the configured settings (rule_content_exact; a power-scaled pulse uses the setting sampled when the device was enabled), and every auxiliary switch handler belongs to an enabled device; enable and disable are idempotent; after an event listed in the disable events of every device and in no enable events (ball_will_end, service_mode_entered by default; tilt, slam tilt and game end reach ball_will_end through the real game) table and handlers are empty, no coil is energised and every device stays disabled until something enables one; after a disable no re-enable delay is pending and the device stays disabled through any later ops that do not enable it. In every reachable state (any configuration, any interleaving of button / EOS / enable / disable / timer ops, also after the EOS has closed again) a coil energised by a software command is owed to the sw_flipped / repulse-enabled flag of an enabled flipper, so no coil is energised on behalf of a disabled flipper. The five handlers of SoftwareEosRepulseManager are translated from platform_controller.py on every check (Gen/RulesOps.lean, stateful deep embedding Model/PyStore.lean) and proved to do exactly what the hand model's transitions do (eos_manager_refines_source). The rest of the model is tied to flipper.py/autofire.py/kickback.py/platform_controller.py/virtual.py by a correspondence run on real devices of a real machine (with and without a running game) after every op, including the settings every rule setter of the platform was called with; the oracle checks the platform's rules dict (presence and settings) and the registered switch handlers against the enabled devices on every op.",
+    "note": "Trusted: Lean kernel + {propext, Classical.choice, Quot.sound}; the hand-written model Model/Rules.lean (validated by differential runs; its software-EOS-repulse transitions additionally by the translator tie: translate/rules_eff.py, the interpreter Model/PyStore.lean and the 40-line meaning function Model/RulesGen.lean applyMgr); the virtual platform's rules dict stands for the hardware (real platforms' own set/clear implementations are not covered; a delayed-pulse rule setter and the feature flag hardware_eos_repulse are supplied by the harness, as no shipped virtual platform has them); game flow (which lifecycle events a tilt / drain / game end posts) is taken from the real game and fed to the model as events; asyncio timers via the repo's TimeTravelLoop. Assumes devices do not share a (switch, coil) pair and kickback switches are not shared. AutofireCoil.enable/disable are translated too (Gen/RulesOps.lean) but not yet proved against the model. Three defects fixed earlier (half-installed flipper after a refused rule, autofire enabled without a rule, software EOS repulse leaving the coil on after disable).",
+    "technique": "Lean 4 theorems (invariant + induction over all op sequences) on a hand model + translated manager handlers proved equal to the model's transitions + differential correspondence and rule-table / rule-content oracle on real devices",
+    "translated": True,
 }
-RULE = ("a case = 1-4 devices (flipper wiring variant single/dual/single+EOS/dual+EOS, optional software EOS repulse with 0 or "
-        "250 ms debounce, no activation switch, zero-length pulse, coil limits that refuse the main or hold rule; autofire / "
-        "kickback with coil_overwrite, switch_overwrite, reverse_switch, NC switch, timeout protection, delayed pulse, "
-        "ball_search_order, kickback disabling itself on its fired event on a switch of its own; flippers with "
-        "power_setting_name; shared switches, generated or default enable/disable events, some with an event|ms delay) + 6-30 ops (enable/disable by API or event incl. repeats, sw_flip/sw_release, ball-search "
-        "callback, switch changes incl. hits that trigger the timeout protection, lifecycle events, clock advances on the "
-        "1/8 s grid, flipper_power setting changes); directed streams for software EOS repulse cycles and for timeout "
-        "hits inside / at / outside the code's actual window; without a game (events posted) or with a real game (start, drain, tilt, slam tilt, service, end). "
-        "non-trivial = at least one rule was written and one cleared; distinct = canonical JSON of (devices, ops)")
+RULE = ("a case = 1-4 devices (flipper wiring variant single/dual/single+EOS/dual+EOS, optional EOS repulse in software (0 or "
+        "250 ms debounce) or by the platform, no activation switch, zero-length pulse, main/hold coil overwrites of pulse ms / "
+        "pulse power / hold power, NC switches, coil limits that refuse the main or hold rule; autofire / "
+        "kickback with coil_overwrite (pulse ms, power, recycle), coil default_recycle, switch_overwrite and the switch's own "
+        "debounce, reverse_switch, NC switch, timeout protection, coil_pulse_delay on a platform with or without delayed-pulse "
+        "rules, ball_search_order, kickback disabling itself on its fired event, a kickback's fired event as another device's "
+        "enable / disable event; flippers with power_setting_name; shared switches, generated or default enable/disable events, "
+        "some with an event|ms delay) + 6-30 ops (enable/disable by API or event incl. repeats, sw_flip/sw_release incl. twice in "
+        "a row and while disabled, ball-search callback with phase 1-3, switch changes incl. hits that trigger the timeout "
+        "protection, lifecycle events, clock advances on the 1/8 s grid, flipper_power setting changes); directed streams for "
+        "software EOS repulse cycles (incl. the EOS closing again while the repulse holds the coil, then a disable) and for timeout "
+        "hits inside / at / outside the code's actual window; without a game (events posted) or with a real game (start, drain, "
+        "tilt, slam tilt, service, end). non-trivial = at least one rule was written and one cleared; distinct = canonical JSON of "
+        "(devices, ops)")
 TRUSTED = ["modelled, not verified: the virtual platform's rules dict as the hardware; real hardware platforms' "
-           "set_*_rule/clear_hw_rule; game flow (lifecycle events are taken from the real game); asyncio timers "
-           "(TimeTravelLoop); Driver.pulse/enable/disable limit handling (C08)",
+           "set_*_rule/clear_hw_rule; a delayed-pulse rule setter and the hardware_eos_repulse feature are supplied by the "
+           "harness; game flow (lifecycle events are taken from the real game); asyncio timers "
+           "(TimeTravelLoop); Driver.pulse/enable/disable limit handling (C08); the ball search scheduler (callbacks are "
+           "called directly with phase / iteration)",
            "Model/Rules.lean is hand-written; tied to flipper.py / autofire.py / kickback.py / platform_controller.py by "
-           "correspondence on every run"]
+           "correspondence on every run, its SoftwareEosRepulseManager transitions also by translation "
+           "(translate/rules_eff.py + Model/PyStore.lean + Model/RulesGen.lean applyMgr)"]
 ASSUMPTIONS = ["two devices never use the same (switch, coil) pair and a coil belongs to one device (the platform table is "
                "keyed by that pair; the virtual platform asserts on such a config)",
                "a kickback's switch is not shared with another autofire device",
@@ -49,14 +64,25 @@ ASSUMPTIONS = ["two devices never use the same (switch, coil) pair and a coil be
                "counts hits within watch_time/1000 (1 s -> 1 ms).  C10 is about the rules matching the enabled devices "
                "however the timeout trips; the model reproduces the code's actual window and the generator produces "
                "hits inside it (same instant, or 125 ms apart with watch times >= 130 s) and outside it",
-               "an enable refused by coil limits raises out of the event handler (MPF stops); the case ends there"]
+               "an enable refused by coil limits raises out of the event handler (MPF stops); the case ends there",
+               "the rule of a device = what its configuration describes when the rule is written: a flipper with "
+               "power_setting_name keeps the pulse computed from the setting at enable; MPF does not rewrite the rule when the "
+               "setting changes while the flipper is enabled (counted as observed_outside_property_rule_keeps_old_power_setting, "
+               "not a failure)",
+               "rule settings follow the code as it is: the EOS rule of the main coil takes pulse ms / power from "
+               "hold_coil_overwrite and the hold coil's rule its hold power from main_coil_overwrite; the PSU notification "
+               "handler of a rule on an NC switch is registered on logical state 0",
+               "hold_coil without main_coil cannot be configured (main_coil is required by config_spec)"]
 
 KINDS = {"pulse_on_hit": 0, "pulse_on_hit_and_enable_and_release": 1, "pulse_on_hit_and_release": 2,
-         "pulse_on_hit_and_release_and_disable": 3, "pulse_on_hit_and_enable_and_release_and_disable": 4}
+         "pulse_on_hit_and_release_and_disable": 3, "pulse_on_hit_and_enable_and_release_and_disable": 4,
+         "delayed_pulse_on_hit": 5}
 LIFE = ["ball_started", "ball_will_end", "tilt", "slam_tilt", "service_mode_entered", "game_ended", "ball_ended",
         "game_started", "ball_ending", "all_on", "all_off"]
 MGR = {"_button_active": 1, "_button_inactive": 2, "_eos_closed_long_enough": 3, "_repulse_on_eos_open": 4}
 NSW = 5    # device switches s0..s4
+SW_DEB = {3: "normal", 4: "quick"}      # the switches' own debounce setting (the others: auto)
+MPF_PULSE = 10                          # mpf: default_pulse_ms
 
 
 # ---------------------------------------------------------------------------------------------------------- generation
@@ -98,10 +124,16 @@ def gen_dev(r, i, game, used_kick_sw):
              "eos": r.choice([s for s in range(NSW) if s != act]) if eos else None,
              "repulse": eos and r.random() < 0.6, "eos_ms": r.choice([0, 0, 250]),
              "noswitch": r.random() < 0.05, "fail": None, "mo0": r.random() < 0.12, "ho0": r.random() < 0.12,
-             "search": r.random() < 0.5, "hold_ms": r.choice([250, 500, 1000]), "power": r.random() < 0.2}
+             "search": r.random() < 0.5, "hold_ms": r.choice([250, 500, 1000]), "power": r.random() < 0.25,
+             "mo": {"pulse_ms": r.choice([None, None, 15]), "pulse_power": r.choice([None, None, 0.5]),
+                    "hold_power": r.choice([None, None, 0.0625])},
+             "ho": {"pulse_ms": r.choice([None, None, 12]), "pulse_power": r.choice([None, None, 0.75])},
+             "hwrep": False}
         if r.random() < 0.12:
             d["fail"] = r.choice(["main", "hold"]) if variant.startswith("dual") else "main"
             d["mo0"] = d["ho0"] = False
+            d["mo"] = {"pulse_ms": None, "pulse_power": None, "hold_power": None}
+            d["ho"] = {"pulse_ms": None, "pulse_power": None}
     else:
         kick = k > 0.85
         free = [s for s in range(NSW) if s not in used_kick_sw] or [0]
@@ -109,7 +141,8 @@ def gen_dev(r, i, game, used_kick_sw):
              "pulse_ms": r.choice([None, None, 0, 30]), "pulse_power": r.choice([None, None, 0.5]),
              "recycle": r.choice([None, None, True, False]), "debounce": r.choice([None, None, "normal", "quick"]),
              "fail": None, "watch": 0, "max_hits": 0, "dis_ms": 0, "order": r.choice([0, 100, 100, 50]),
-             "self_disable": kick and r.random() < 0.4}
+             "self_disable": kick and r.random() < 0.4,
+             "def_recycle": r.choice([None, None, True, False]), "delay": r.choice([None, None, None, 50, 125])}
         if r.random() < 0.55:
             # the code's window is watch/1000 ms: 1000 -> 1 ms (same instant only); 130000 / 200000 -> hits 125 ms
             # apart are inside, 250 ms apart outside; 125000 -> the boundary itself (125 ms apart is outside)
@@ -118,6 +151,7 @@ def gen_dev(r, i, game, used_kick_sw):
             d["dis_ms"] = r.choice([0, 250, 500, 500, 1000])
         if r.random() < 0.1:
             d["fail"] = r.choice(["limit", "delay"])
+            d["delay"] = None
             if d["fail"] == "limit":
                 d["pulse_ms"] = 100
     d["ev"] = gen_events(r, i, game, d["t"] == "K")
@@ -136,6 +170,23 @@ def gen_devs(r, game):
             else:
                 kick_sw.add(d["sw"])
         devs.append(d)
+    # one platform per case: without delayed-pulse support when a device is meant to be refused for it; with or without
+    # hardware EOS repulse
+    if any(d.get("fail") == "delay" for d in devs):
+        for d in devs:
+            if d["t"] != "F":
+                d["delay"] = None
+    if r.random() < 0.25:
+        for d in devs:
+            if d["t"] == "F":
+                d["hwrep"] = True
+    # a kickback's fired event as somebody else's enable / disable event
+    kicks = [j for j, d in enumerate(devs) if d["t"] == "K"]
+    for i, d in enumerate(devs):
+        if kicks and d["ev"] is not None and r.random() < 0.2:
+            j = r.choice(kicks)
+            if j != i:
+                d["ev"][r.choice([0, 1])].append("kickback_k%d_fired" % j)
     return devs
 
 
@@ -162,11 +213,15 @@ def gen_ops(r, devs, game):
                 ops.append(list(ops[-1]))
         elif k < 0.4 and fl:
             ops.append(["sw_flip", r.choice(fl), r.choice(["api", "event"])])
+            if r.random() < 0.25:
+                ops.append(list(ops[-1]))
         elif k < 0.47 and fl:
             ops.append(["sw_release", r.choice(fl), r.choice(["api", "event"])])
+            if r.random() < 0.25:
+                ops.append(list(ops[-1]))
         elif k < 0.55:
             if searchable(devs[i]):
-                ops.append(["search", i])
+                ops.append(["search", i, r.choice([1, 2, 3]), r.choice([1, 2])])
         elif k < 0.75:
             s = r.randrange(NSW)
             if af and r.random() < 0.5:
@@ -198,9 +253,6 @@ def ev_names(d, i):
 
 
 def build_config(devs, game):
-    sw = ["switches:"]
-    for s in range(NSW):
-        sw += ["  s%d:" % s, "    number: %d" % s]
     co = ["coils:"]
     fl, af, kb = ["flippers:"], ["autofire_coils:"], ["kickbacks:"]
     nc_sw = nc_switches(devs)
@@ -209,6 +261,8 @@ def build_config(devs, game):
         sw += ["  s%d:" % s, "    number: %d" % s]
         if s in nc_sw:
             sw.append("    type: NC")
+        if s in SW_DEB:
+            sw.append("    debounce: %s" % SW_DEB[s])
     if game:
         sw += ["  s_tilt:", "    number: 20", "    tags: tilt", "  s_slam:", "    number: 21", "    tags: slam_tilt"]
     for i, d in enumerate(devs):
@@ -231,10 +285,12 @@ def build_config(devs, game):
             if not d["noswitch"]:
                 out.append("    activation_switch: s%d" % d["act"])
             if eos:
-                out += ["    eos_switch: s%d" % d["eos"], "    use_eos: true"]
+                out += ["    eos_switch: s%d" % d["eos"], "    use_eos: true",
+                        "    eos_active_ms_before_repulse: %d" % d["eos_ms"]]
                 if d["repulse"]:
-                    out += ["    repulse_on_eos_open: true", "    eos_active_ms_before_repulse: %d" % d["eos_ms"]]
-            mo, ho = {}, {}
+                    out += ["    repulse_on_eos_open: true"]
+            mo = {k: v for k, v in (d.get("mo") or {}).items() if v is not None}
+            ho = {k: v for k, v in (d.get("ho") or {}).items() if v is not None}
             if d["mo0"]:
                 mo["pulse_ms"] = 0
             if d["ho0"]:
@@ -253,6 +309,8 @@ def build_config(devs, game):
             tgt = fl
         else:
             co += ["  c%d:" % m, "    number: %d" % m, "    default_pulse_ms: 20", "    max_pulse_ms: 50"]
+            if d.get("def_recycle") is not None:
+                co.append("    default_recycle: %s" % str(d["def_recycle"]).lower())
             name = ("k%d" if d["t"] == "K" else "a%d") % i
             out = ["  %s:" % name, "    coil: c%d" % m, "    switch: s%d" % d["sw"]]
             if d["reverse"]:
@@ -268,6 +326,8 @@ def build_config(devs, game):
                         "    timeout_disable_time: %dms" % d["dis_ms"]]
             if d["fail"] == "delay":
                 out.append("    coil_pulse_delay: 50ms")
+            elif d.get("delay"):
+                out.append("    coil_pulse_delay: %dms" % d["delay"])
             out.append("    ball_search_order: %d" % d["order"])
             tgt = kb if d["t"] == "K" else af
         if d["ev"] is not None:
@@ -301,36 +361,72 @@ def searchable(d):
     return d["search"] if d["t"] == "F" else d["order"] != 0
 
 
-def expected_rules(d, i, nc):
-    """(table rows, aux handlers) of one device when enabled - computed from the generated description only"""
+def pm(x, default=1000):
+    """a power as permille"""
+    return default if x is None else round(x * 1000)
+
+
+def pulse_of(power, factor, ow, coil_default):
+    """Flipper._get_pulse_ms / _get_hold_pulse_ms + Driver.get_and_verify_pulse_ms, as documented: with a power setting the
+    overwrite (the mpf default when unset or 0) times the setting, truncated; otherwise the overwrite or the coil's default"""
+    if power:
+        return ((ow or MPF_PULSE) * factor) // 1000
+    return coil_default if ow is None else ow
+
+
+def expected_rules(d, i, nc, factor=1000):
+    """(table rows with their settings, aux handlers) of one device when enabled - computed from the generated description
+    only.  Row = (switch, coil, kind, invert, debounce, pulse ms, pulse power, hold power + 1 | 0, recycle, delay ms,
+    hardware repulse 0/1/2, repulse debounce ms); factor = the flipper power setting (permille) when the rules were written"""
     m, h = 2 * i, 2 * i + 1
     if d["t"] != "F":
-        psu_state = 0 if (d["reverse"] != (d["sw"] in nc)) else 1
+        inv = d["reverse"] != (d["sw"] in nc)
+        psu_state = 0 if inv else 1
+        deb = (d["debounce"] == "normal") if d["debounce"] else SW_DEB.get(d["sw"]) == "normal"
+        recycle = d["recycle"] if d["recycle"] is not None else d.get("def_recycle") in (True, None)
+        pulse = 20 if d["pulse_ms"] is None else d["pulse_ms"]
+        delay = d.get("delay") or 0
         aux = [] if d["pulse_ms"] == 0 else [(d["sw"], psu_state, 0, m)]
-        return [(d["sw"], m, 0)], aux
+        return [(d["sw"], m, 5 if delay else 0, int(inv), int(deb), pulse, pm(d["pulse_power"]), 0, int(recycle), delay, 0, 0)], aux
     if d["noswitch"]:
         return [], []
     a, e = d["act"], d["eos"]
     dual = d["variant"].startswith("dual")
     eos = d["variant"].endswith("_eos")
+    power = bool(d.get("power"))
+    mo = dict(d.get("mo") or {"pulse_ms": None, "pulse_power": None, "hold_power": None})
+    ho = dict(d.get("ho") or {"pulse_ms": None, "pulse_power": None})
+    if d["mo0"]:
+        mo["pulse_ms"] = 0
+    if d["ho0"]:
+        ho["pulse_ms"] = 0
+    if dual and d["fail"] == "main":
+        (ho if eos else mo)["pulse_ms"] = 50
+    main_def_hold = None if dual else 125
     rows, aux = [], []
     ps = 0 if a in nc else 1
-    mo0 = d["mo0"] and not d.get("power")       # with power_setting_name a 0 ms overwrite falls back to default_pulse_ms
-    ho0 = d["ho0"] and not d.get("power")
+    hold_main = 1 + (pm(mo["hold_power"], None) if mo["hold_power"] is not None else (main_def_hold or 0))
+    hold_hold = 1 + (pm(mo["hold_power"], None) if mo["hold_power"] is not None else 1000)
     if eos:
         kind = 3 if dual else 4
-        rows += [(a, m, kind), (e, m, kind)]
-        if d["repulse"]:
+        p = pulse_of(power, factor, ho["pulse_ms"], 10)
+        soft = d["repulse"] and not d.get("hwrep")
+        rep = (0, 0) if soft else (2 if d["repulse"] else 1, d["eos_ms"])
+        for s_, inv in ((a, a in nc), (e, e in nc)):
+            rows.append((s_, m, kind, int(inv), 0, p, pm(ho["pulse_power"]), 0 if dual else hold_main, 0, 0) + rep)
+        if soft:
             aux += [(a, 1, 1, m), (a, 0, 2, m), (e, 1, 3, m), (e, 0, 4, m)]
-        if not ho0:
+        if p != 0:
             aux.append((a, ps, 0, m))
     else:
-        rows.append((a, m, 2 if dual else 1))
-        if not mo0:
+        p = pulse_of(power, factor, mo["pulse_ms"], 10)
+        rows.append((a, m, 2 if dual else 1, int(a in nc), 0, p, pm(mo["pulse_power"]), 0 if dual else hold_main, 0, 0, 0, 0))
+        if p != 0:
             aux.append((a, ps, 0, m))
     if dual:
-        rows.append((a, h, 1))
-        if not ho0:
+        p = pulse_of(power, factor, ho["pulse_ms"], MPF_PULSE)
+        rows.append((a, h, 1, int(a in nc), 0, p, pm(ho["pulse_power"]), hold_hold, 0, 0, 0, 0))
+        if p != 0:
             aux.append((a, ps, 0, h))
     return rows, aux
 
@@ -346,6 +442,9 @@ class Run:
         self.on = set()
         self.dead = False
         self.pending = []     # delayed control events not yet fired: (due ms, device, action)
+        self.content = {}     # (switch, coil) -> settings of the rule as the platform received them
+        self.factor = 1000    # flipper power setting now (permille)
+        self.write_factor = {}    # device -> the setting in force when its rules were last written
         self.codes = {n: k for k, n in enumerate(LIFE)}
 
     def code(self, name):
@@ -367,15 +466,25 @@ class Run:
                 self.objs.append(m.autofire_coils["a%d" % i])
         plat = m.default_platform
         self.plat = plat
+        if any(d["t"] == "F" and d.get("hwrep") for d in self.devs):
+            plat.features["hardware_eos_repulse"] = True      # a platform that repulses by itself: no software manager
+        if not any(d.get("fail") == "delay" for d in self.devs):
+            # a platform with delayed-pulse rules (the virtual platform has none): same table, its own rule kind
+            def delayed(enable_switch, coil, delay_ms):
+                plat._assert_rule_does_not_exist(enable_switch.hw_switch, coil.hw_driver)
+                plat.rules[(enable_switch.hw_switch, coil.hw_driver)] = "delayed_pulse_on_hit"
+            plat.set_delayed_pulse_on_hit_rule = delayed
         for name in dir(plat):
             if (name.startswith("set_") and name.endswith("_rule")) or name == "clear_hw_rule":
-                def mk(f):
+                def mk(f, name):
                     @functools.wraps(f)
                     def g(*a, **k):
                         self.calls += 1
-                        return f(*a, **k)
+                        res = f(*a, **k)
+                        self.record(name, a, k)
+                        return res
                     return g
-                setattr(plat, name, mk(getattr(plat, name)))
+                setattr(plat, name, mk(getattr(plat, name), name))
         for c in m.coils.values():
             hw = c.hw_driver
             num = int(hw.number)
@@ -404,6 +513,26 @@ class Run:
         self.t0 = round(self.vm.now() * 1000)
         self.sw_state = {s: 0 for s in range(NSW)}
         return self
+
+    def record(self, name, a, k):
+        """the settings a rule setter of the platform was called with (after it returned), per (switch, coil) row"""
+        a = list(a) + list(k.values())
+        sws = [x for x in a if type(x).__name__ == "SwitchSettings"]
+        coil = [x for x in a if type(x).__name__ == "DriverSettings"][0]
+        cnum = int(coil.hw_driver.number)
+        if name == "clear_hw_rule":
+            for sw in sws:
+                self.content.pop((int(sw.hw_switch.number), cnum), None)
+            return
+        rep = [x for x in a if type(x).__name__ == "RepulseSettings"]
+        delay = [x for x in a if isinstance(x, int) and not isinstance(x, bool)]
+        ps, hs = coil.pulse_settings, coil.hold_settings
+        for sw in sws:
+            self.content[(int(sw.hw_switch.number), cnum)] = (
+                int(bool(sw.invert)), int(bool(sw.debounce)), ps.duration, round(ps.power * 1000),
+                0 if hs is None else 1 + round(hs.power * 1000), int(bool(coil.recycle)), delay[0] if delay else 0,
+                0 if not rep else (2 if rep[0].enable_repulse else 1), 0 if not rep else rep[0].debounce_ms)
+        self.write_factor[cnum // 2] = self.factor
 
     def _seen(self, _name, **kwargs):
         self.events.append((round(self.vm.now() * 1000), _name))
@@ -454,7 +583,7 @@ class Run:
                 for cb in self.objs[op[1]].config["playfield"].ball_search.callbacks if self.devs[op[1]]["t"] == "F" \
                         else self.objs[op[1]].playfield.ball_search.callbacks:
                     if cb.name == self.objs[op[1]].name:
-                        cb.callback(1, 1)
+                        cb.callback(op[2] if len(op) > 2 else 1, op[3] if len(op) > 3 else 1)
             elif kind == "sw":
                 vm.hit_switch("s%d" % op[1], op[2])
             elif kind == "ev":
@@ -463,6 +592,7 @@ class Run:
                 vm.advance(op[1] / 8.0)
             elif kind == "setting":
                 m.settings.set_setting_value("flipper_power", op[1])
+                self.factor = round(op[1] * 1000)
             elif kind == "game":
                 self.game_op(op[1])
             vm.run()
@@ -515,7 +645,9 @@ class Run:
 
     # -- observation --------------------------------------------------------------------------------------------------
     def table(self):
-        return sorted((int(k[0].number), int(k[1].number), KINDS.get(v, 99)) for k, v in self.plat.rules.items())
+        """the platform's rule table, each row with the settings it was written with"""
+        return sorted((int(k[0].number), int(k[1].number), KINDS.get(v, 99)) +
+                      self.content.get((int(k[0].number), int(k[1].number)), (-1,) * 9) for k, v in self.plat.rules.items())
 
     def aux(self):
         out = []
@@ -571,26 +703,43 @@ def lst(v):
     return ",".join(map(str, v)) or "-"
 
 
+def ob(v):
+    return "-" if v is None else str(int(v))
+
+
 def model_dev_line(run, i):
+    """the device's raw configuration for the model (which computes rows, settings and handlers from it)"""
     d = run.devs[i]
     en, dis = run.ev_lists(i)
     en = [run.code(n) for n in en]
     dis = [run.code(n) for n in dis]
     m, h = 2 * i, 2 * i + 1
+    nc = nc_switches(run.devs)
     if d["t"] == "F":
         dual = d["variant"].startswith("dual")
         eos = d["variant"].endswith("_eos")
-        mo0 = d["mo0"] and not d.get("power")
-        ho0 = d["ho0"] and not d.get("power")
-        psu_main = not (ho0 if eos else mo0)
-        return "dev F %s %s %d %s %d %d %d %d %d %d %d %d %s %s" % (
+        mo = dict(d.get("mo") or {"pulse_ms": None, "pulse_power": None, "hold_power": None})
+        ho = dict(d.get("ho") or {"pulse_ms": None, "pulse_power": None})
+        if d["mo0"]:
+            mo["pulse_ms"] = 0
+        if d["ho0"]:
+            ho["pulse_ms"] = 0
+        if dual and d["fail"] == "main":
+            (ho if eos else mo)["pulse_ms"] = 50
+        return "dev F %s %s %d %s %d %d %d %d %d %d %s %s %s %s %s %d %d %s %s %d %d %d %s %s" % (
             opt(None if d["noswitch"] else d["act"]), opt(d["eos"] if eos else None), m, opt(h if dual else None),
-            d["repulse"], d["eos_ms"], 0 if d["act"] in nc_switches(run.devs) else 1, psu_main, not ho0, d["fail"] != "main", d["fail"] != "hold", d["hold_ms"],
-            lst(en), lst(dis))
+            d["repulse"], d["eos_ms"], bool(d.get("hwrep")), d["act"] in nc, eos and d["eos"] in nc, bool(d.get("power")),
+            opt(mo["pulse_ms"]), opt(None if mo["pulse_power"] is None else pm(mo["pulse_power"])),
+            opt(None if mo["hold_power"] is None else pm(mo["hold_power"])),
+            opt(ho["pulse_ms"]), opt(None if ho["pulse_power"] is None else pm(ho["pulse_power"])),
+            10, MPF_PULSE, opt(None if dual else 125), opt(1000),
+            d["fail"] != "main", d["fail"] != "hold", d["hold_ms"], lst(en), lst(dis))
     fired = run.code("kickback_k%d_fired" % i) if d["t"] == "K" else None
-    return "dev A %d %d %d %d %d %d %d %d %s %s %s" % (
-        d["sw"], m, 0 if (d["reverse"] != (d["sw"] in nc_switches(run.devs))) else 1, d["pulse_ms"] != 0, d["fail"] is None, d["watch"], d["max_hits"],
-        d["dis_ms"], opt(fired), lst(en), lst(dis))
+    return "dev A %d %d %d %d %d %s %s %s %s %d %s %d %d %d %d %d %s %s %s" % (
+        d["sw"], m, d["reverse"], d["sw"] in nc, SW_DEB.get(d["sw"]) == "normal",
+        ob(None if not d["debounce"] else d["debounce"] == "normal"), ob(d["recycle"]), ob(d.get("def_recycle")),
+        opt(d["pulse_ms"]), 20, opt(None if d["pulse_power"] is None else pm(d["pulse_power"])), d.get("delay") or 0,
+        d["fail"] is None, d["watch"], d["max_hits"], d["dis_ms"], opt(fired), lst(en), lst(dis))
 
 
 def parse_model(line):
@@ -637,6 +786,8 @@ class ModelFeed:
             return ["search %d" % op[1]] if searchable(run.devs[op[1]]) else []
         if k in ("sw_flip", "sw_release"):
             return ["%s %d" % (k, op[1])]
+        if k == "setting":
+            return ["setting %d" % round(op[1] * 1000)]
         if k == "sw":
             s, st = op[1], op[2]
             out = []
@@ -702,7 +853,7 @@ class Oracle:
     def __init__(self, run):
         self.run = run
         n = len(run.devs)
-        self.exp = [expected_rules(d, i, nc_switches(run.devs)) for i, d in enumerate(run.devs)]
+        self.nc = nc_switches(run.devs)
         self.off = [False] * n          # explicitly disabled and not enabled since
         self.refused_before = False
         self.inball = False
@@ -722,11 +873,18 @@ class Oracle:
             if not fails:
                 return "crash:" + res.split(":")[1], {"op": op, "note": "no device with refusing limits"}
             self.refused_before = True
+        # the rules of a device are those its configuration describes, a power-scaled pulse with the setting in force
+        # when the rule was written
+        self.exp = [expected_rules(d, i, self.nc, run.write_factor.get(i, 1000)) for i, d in enumerate(run.devs)]
         exp_t = sorted(r for i in range(len(en)) if en[i] for r in self.exp[i][0])
         exp_h = sorted(a for i in range(len(en)) if en[i] for a in self.exp[i][1])
         tag = "after-refused-enable" if self.refused_before else "enabled-devices"
-        if obs_t != exp_t:
+        if [x[:3] for x in obs_t] != [x[:3] for x in exp_t]:
             return "table-mismatch:" + tag, {"op": op, "table": obs_t, "expected": exp_t, "enabled": en}
+        if obs_t != exp_t:
+            bad = [x for x in obs_t if x not in exp_t][0]
+            return "rule-content-mismatch:" + self.cls(bad[1] // 2), {"op": op, "table": obs_t, "expected": exp_t,
+                                                                      "enabled": en}
         if obs_h != exp_h:
             return "aux-handler-mismatch:" + tag, {"op": op, "handlers": obs_h, "expected": exp_h, "enabled": en}
         # idempotence: enabling an enabled / disabling a disabled device does not touch the platform
@@ -815,6 +973,7 @@ def run_ops(devs, game, ops, model=None, ctx=None, case=None):
             if op[0] == "sw":
                 run.sw_state[op[1]] = op[2]
             t = run.table()
+            prev_rows = prev_t
             stats["writes"] += len([x for x in t if x not in prev_t])
             stats["clears"] += len([x for x in prev_t if x not in t])
             prev_t = t
@@ -838,6 +997,27 @@ def run_ops(devs, game, ops, model=None, ctx=None, case=None):
                                 ctx.count("branch_earlier_hits_outside_window")
                 if op[0] == "advance" and run.calls:
                     ctx.count("branch_timer_changed_rules")
+                for row in t:
+                    if row not in prev_rows:
+                        ctx.count("rule_written_kind_%d" % row[2])
+                        if row[2] == 5:
+                            ctx.count("branch_delayed_pulse_rule_written")
+                        if row[10]:
+                            ctx.count("branch_rule_with_hardware_repulse_settings")
+                        if row[3]:
+                            ctx.count("branch_rule_with_inverted_switch")
+                        if row[4] or row[8]:
+                            ctx.count("branch_rule_with_debounce_or_recycle")
+                        dd = devs[row[1] // 2]
+                        if dd["t"] == "F" and dd.get("power") and run.write_factor.get(row[1] // 2, 1000) != 1000:
+                            ctx.count("branch_rule_pulse_scaled_by_setting")
+                for j, (dd, o) in enumerate(zip(devs, run.objs)):
+                    if dd["t"] == "F" and dd.get("power") and o._enabled and run.write_factor.get(j, 1000) != run.factor:
+                        ctx.count("observed_outside_property_rule_keeps_old_power_setting")
+                if op[0] in ("sw_flip", "sw_release") and not before[op[1]]:
+                    ctx.count("branch_%s_while_disabled" % op[0])
+                if op[0] == "search":
+                    ctx.count("branch_search_phase_%d" % (op[2] if len(op) > 2 else 1))
                 if op[0] in ("enable", "disable") and before[op[1]] == (op[0] == "enable"):
                     ctx.count("branch_repeated_" + op[0])
                 if op[0] == "disable" and devs[op[1]]["t"] != "F" and any(x.startswith("-") is False for x in [run.dev_state(op[1]).split("/")[1]]) is False:
@@ -912,12 +1092,22 @@ def gen_eos_case(r):
                      "repulse": True, "eos_ms": r.choice([0, 250, 250]), "noswitch": False, "fail": None, "mo0": False,
                      "ho0": r.random() < 0.1, "search": r.random() < 0.5, "hold_ms": r.choice([250, 500]),
                      "power": r.random() < 0.5,
+                     "mo": {"pulse_ms": None, "pulse_power": None, "hold_power": r.choice([None, None, 0.0625])},
+                     "ho": {"pulse_ms": r.choice([None, None, 12]), "pulse_power": r.choice([None, 0.75])},
+                     "hwrep": False,
                      "ev": [["d%d_on" % i, "ball_started"], ["d%d_off" % i, "ball_will_end", "service_mode_entered"]]})
+    if r.random() < 0.15:      # the same button / EOS cycles on a platform that repulses in hardware: no manager at all
+        for d in devs:
+            d["hwrep"] = True
     ops = []
     if r.random() < 0.7:     # one full repulse cycle first; the random tail starts with the coil possibly enabled by it
         d = devs[0]
         ops += [["enable", 0, r.choice(["api", "event"])], ["sw", d["act"], 1], ["sw", d["eos"], 1],
                 ["advance", r.choice([1, 2, 3, 4])], ["sw", d["eos"], 0]]
+        if r.random() < 0.5:   # ... and the EOS closes again for the debounce time while the repulse holds the coil
+            ops += [["sw", d["eos"], 1], ["advance", r.choice([1, 2, 3, 4])]]
+            if r.random() < 0.5:
+                ops.append(r.choice([["disable", 0, "api"], ["disable", 0, "event"], ["ev", "ball_will_end"]]))
     for _ in range(r.randint(4, 20)):
         i = r.randrange(len(devs))
         d = devs[i]
@@ -969,6 +1159,11 @@ DIRECTED = [
     ([{"t": "F", "variant": "single_eos", "act": 0, "eos": 1, "repulse": True, "eos_ms": 250, "noswitch": False, "fail": None,
        "mo0": False, "ho0": False, "search": True, "hold_ms": 500, "ev": [["d0_on"], ["d0_off", "ball_will_end"]]}],
      [["enable", 0, "event"], ["sw", 0, 1], ["sw", 1, 1], ["advance", 4], ["sw", 1, 0], ["ev", "ball_will_end"], ["sw", 0, 0]]),
+    # ... the EOS closes again for the debounce time while the repulse holds the coil; then the flipper is disabled
+    ([{"t": "F", "variant": "single_eos", "act": 0, "eos": 1, "repulse": True, "eos_ms": 250, "noswitch": False, "fail": None,
+       "mo0": False, "ho0": False, "search": True, "hold_ms": 500, "ev": [["d0_on"], ["d0_off", "ball_will_end"]]}],
+     [["enable", 0, "event"], ["sw", 0, 1], ["sw", 1, 1], ["advance", 4], ["sw", 1, 0], ["sw", 1, 1], ["advance", 4],
+      ["ev", "ball_will_end"], ["sw", 0, 0], ["enable", 0, "api"], ["sw", 1, 0], ["disable", 0, "api"]]),
     # dual-wound flipper whose hold coil may not be enabled: second rule refused
     ([{"t": "F", "variant": "dual", "act": 0, "eos": None, "repulse": False, "eos_ms": 0, "noswitch": False, "fail": "hold",
        "mo0": False, "ho0": False, "search": False, "hold_ms": 500, "ev": [["d0_on"], ["d0_off"]]}],
